@@ -75,10 +75,14 @@ def fault_patterns(rc, tier, rnd):
         singles.append([dict(dir=d, t=t, skip=0, drop=0, dupl=1)])
         singles.append([dict(dir=d, t=t, skip=0, drop=1, dupl=1)])
     pairs = []
+    # datagrams of one exchange step share the gateway's retry budget: request and its answer
+    step = {"REGISTER": 0, "REGACK": 0, "PUBLISH": 1, "PUBACK": 1, "PUBREC": 1, "PUBREL": 2, "PUBCOMP": 2}
     for i in range(len(FLOW)):
         for j in range(i + 1, len(FLOW)):
             for di in (1, rc):
                 for dj in (1, rc):
+                    if step[FLOW[i][1]] == step[FLOW[j][1]] and di + dj > rc:
+                        continue
                     pairs.append([dict(dir=FLOW[i][0], t=FLOW[i][1], skip=0, drop=di, dupl=0),
                                   dict(dir=FLOW[j][0], t=FLOW[j][1], skip=0, drop=dj, dupl=0)])
     if tier == "quick":
